@@ -5,6 +5,7 @@ package main
 import (
 	"fmt"
 	"go/ast"
+	"go/token"
 	"go/types"
 	"strings"
 )
@@ -15,7 +16,7 @@ func init() {
 		Title: "Garbage collection removes only superseded partial tiles",
 		Explanation: "Who-may-call inventory, guard-dominance and value-flow obligations on cmd/partial-aftersun (cleanDir, overrideImmutable, logSize, mirroredLogSize, main). " +
 			"Decided: the only deleting calls of the command are the two Remove calls of cleanDir; each is dominated by the full-sibling test, the right-edge test (tile index below size / tile span, with the tile parsed by the supplied parser and size the parameter), and for files the non-full-width test and a successful overrideImmutable (itself guarded by path shape, numeric width, and a non-empty regular full tile); the size comes from logSize / mirroredLogSize of the same directory, logSize returning only after note.Open with the log's key and origin equality; each directory kind is cleaned with its own path parser; the immutable flag is cleared only inside overrideImmutable after its guards. " +
-			"NOT decided: the exponent arithmetic of the tile span, post-run auditability (runtime).",
+			"The tile span dividing the size is constant-folded for every level -2..6 and must equal 256^(max(0,L)+1) (C18.g). NOT decided: post-run auditability (runtime).",
 		Assumptions: []string{"os.Root confines every operation to the opened directory", "the checkpoint on disk is the published one"},
 		Obligations: []*Obligation{
 			{ID: "C18.a", Title: "WHO-DELETES", Template: "T4", MinInst: 2,
@@ -28,6 +29,8 @@ func init() {
 				Rule: "log directories are cleaned with sunlight.ParseTilePath, mirror directories with torchwood.ParseTilePath", Run: c18d},
 			{ID: "C18.e", Title: "UNSET-GUARDED", Template: "T4+T2", MinInst: 2,
 				Rule: "immutable.Unset is called only in overrideImmutable, after the path-shape, numeric-width and non-empty regular full tile checks", Run: c18e},
+			{ID: "C18.g", Title: "TILE-SPAN", Template: "T5", MinInst: 1,
+				Rule: "the divisor of the right-edge test size / span, constant-folded with the tile level bound to each of -2..6, equals 256^(max(0,L)+1)", Run: c18g},
 		},
 	})
 }
@@ -411,4 +414,71 @@ func c18e(c *Ctx) {
 		c.Unk("Unset sites", "none")
 	}
 	_ = strings.Join
+}
+
+// ---------------------------------------------------------------------------
+// C18.g TILE-SPAN: the divisor of the right-edge test is the number of leaves
+// one tile of that level covers.
+
+func c18g(c *Ctx) {
+	f := c.Fn("partial-aftersun.cleanDir")
+	if f == nil {
+		return
+	}
+	c.touch(f)
+	info := f.Info()
+	sizeP := f.paramObj("size")
+	inst := f.Name + " tile span"
+	var div ast.Expr
+	var at ast.Node
+	ast.Inspect(f.Body, func(n ast.Node) bool {
+		be, ok := n.(*ast.BinaryExpr)
+		if ok && be.Op == token.QUO && sizeP != nil && objOf(info, be.X) == sizeP {
+			div, at = be.Y, be
+		}
+		return true
+	})
+	if div == nil {
+		c.Unk(inst, "the right-edge bound size / <tile span> was not found")
+		return
+	}
+	var bad []string
+	n := 0
+	for lvl := int64(-2); lvl <= 6; lvl++ {
+		lvl := lvl
+		env := func(e ast.Expr) (int64, bool) {
+			sel, ok := ast.Unparen(e).(*ast.SelectorExpr)
+			if !ok || sel.Sel.Name != "L" {
+				return 0, false
+			}
+			if tv, ok := info.Types[sel.X]; ok && namedIs(tv.Type, pkgTlog, "Tile") {
+				return lvl, true
+			}
+			// inlined helper: the caller's expression re-rooted (types unknown for synthetic nodes)
+			if _, isIdent := ast.Unparen(sel.X).(*ast.Ident); isIdent {
+				if o := objOf(info, sel.X); o != nil && namedIs(o.Type(), pkgTlog, "Tile") {
+					return lvl, true
+				}
+			}
+			return 0, false
+		}
+		got, ok := foldInt(f, div, env, 0)
+		if !ok {
+			c.Unk(inst, fmt.Sprintf("the tile span expression %s cannot be folded for level %d", exprString(div), lvl))
+			return
+		}
+		want := int64(1)
+		for i := int64(0); i <= max(0, lvl); i++ {
+			want *= 256
+		}
+		n++
+		if got != want {
+			bad = append(bad, fmt.Sprintf("level %d: %d leaves instead of %d", lvl, got, want))
+		}
+	}
+	if len(bad) > 0 {
+		c.Bad(inst, f.Pos(at), "the right-edge bound divides the tree size by something other than the number of leaves a tile of that level spans (256^(max(0,L)+1)): "+strings.Join(bad, "; "))
+		return
+	}
+	c.add(Result{Instance: inst, Verdict: Discharged, Evals: n, Sites: []string{f.Pos(at)}, Detail: fmt.Sprintf("%s folds to 256^(max(0,L)+1) for every level -2..6", exprString(div))})
 }
